@@ -141,7 +141,7 @@ class ULPIRegisterWindow(Elaboratable):
 
                     # Once it is, start sending our command.
                     m.d.usb += [
-                        self.ulpi_data_out .eq(self.COMMAND_REG_READ | self.address),
+                        self.ulpi_data_out .eq(self.COMMAND_REG_READ | current_address),
                         self.ulpi_out_req  .eq(1)
                     ]
 
@@ -200,7 +200,7 @@ class ULPIRegisterWindow(Elaboratable):
 
                     # Once it is, start sending our command.
                     m.d.usb += [
-                        self.ulpi_data_out .eq(self.COMMAND_REG_WRITE | self.address),
+                        self.ulpi_data_out .eq(self.COMMAND_REG_WRITE | current_address),
                         self.ulpi_out_req  .eq(1)
                     ]
 
@@ -218,7 +218,7 @@ class ULPIRegisterWindow(Elaboratable):
                 # Hold our address until the PHY has accepted the command;
                 # and then move to presenting the PHY with the value to be written.
                 with m.Elif(self.ulpi_next):
-                    m.d.usb += self.ulpi_data_out.eq(self.write_data)
+                    m.d.usb += self.ulpi_data_out.eq(current_write)
                     m.next = 'HOLD_WRITE'
 
 
@@ -450,22 +450,24 @@ class ULPIControlTranslator(Elaboratable):
         write_requested = Signal(name=f"write_requested_{address:02x}")
         write_value     = Signal(8, name=f"write_value_{address:02x}")
         write_done      = Signal(name=f"write_done_{address:02x}")
+        write_in_flight = Signal(name=f"write_in_flight_{address:02x}")
 
         self._register_signals[address] = {
             'write_requested': write_requested,
             'write_value':     write_value,
-            'write_done':      write_done
+            'write_done':      write_done,
+            'write_in_flight': write_in_flight,
+            'value':           value
         }
 
-        # If we've just finished a write, update our current register value.
+        # If we've just finished a write, update our current register value
+        # with the value that write actually carried.
         with m.If(write_done):
             m.d.usb += current_register_value.eq(write_value),
 
         # If we have a mismatch between the requested and actual register value,
         # request a write of the new value.
         m.d.comb += write_requested.eq(current_register_value != value)
-        with m.If(current_register_value != value):
-            m.d.usb += write_value.eq(value)
 
 
     def populate_ulpi_registers(self, m):
@@ -492,6 +494,19 @@ class ULPIControlTranslator(Elaboratable):
         # Add the registers that represent each of our signals.
         self.populate_ulpi_registers(m)
 
+        # Keep track of which register's write is currently in flight, and complete that
+        # write (and only that one) when the register window reports it's done; the requests
+        # can change while the write is on the bus.
+        any_write_in_flight = Signal()
+        for address, signals in self._register_signals.items():
+            with m.If(signals['write_in_flight']):
+                m.d.comb += [
+                    any_write_in_flight   .eq(1),
+                    signals['write_done'] .eq(self.register_window.done)
+                ]
+            with m.If(self.register_window.done):
+                m.d.usb += signals['write_in_flight'].eq(0)
+
         # Generate logic to handle changes on each of our registers.
         first_element = True
         for address, signals in self._register_signals.items():
@@ -509,21 +524,27 @@ class ULPIControlTranslator(Elaboratable):
                 request_write = \
                     signals['write_requested'] & \
                     ~self.register_window.done & \
+                    ~any_write_in_flight & \
                     self.bus_idle
 
                 m.d.comb += [
 
-                    # Control signals.
-                    signals['write_done']              .eq(self.register_window.done),
-
-                    # Register window signals.
+                    # Register window signals. The window latches its address and data
+                    # as it accepts the request, so these may keep following our inputs.
                     self.register_window.address       .eq(address),
-                    self.register_window.write_data    .eq(signals['write_value']),
+                    self.register_window.write_data    .eq(signals['value']),
                     self.register_window.write_request .eq(request_write),
 
                     # Status signals
                 ]
                 m.d.usb += self.busy.eq(request_write | self.register_window.busy)
+
+                # Remember what the write we're starting carries, and that it's ours.
+                with m.If(request_write & ~self.register_window.busy):
+                    m.d.usb += [
+                        signals['write_value']     .eq(signals['value']),
+                        signals['write_in_flight'] .eq(1)
+                    ]
 
         # If no register accesses are active, provide default signal values.
         with m.Else():
